@@ -73,7 +73,7 @@ func makeConfigFromApiMap(m nameToApiMap) (*builtinconfig.TransformerConfig, err
 		}
 		tc := builtinconfig.MakeEmptyConfig()
 		err := loadCrdIntoConfig(
-			tc, makeGvkFromTypeName(name), m, name, []string{})
+			tc, makeGvkFromTypeName(name), m, name, []string{}, map[string]bool{})
 		if err != nil {
 			return result, err
 		}
@@ -128,14 +128,19 @@ const (
 	xNameKey = "x-kubernetes-object-ref-name-key"
 )
 
-// loadCrdIntoConfig loads a CRD spec into a TransformerConfig
+// loadCrdIntoConfig loads a CRD spec into a TransformerConfig.
+// open holds the names of the types being expanded, so that a type that
+// refers to itself (directly or through other types) is expanded once
+// instead of forever.
 func loadCrdIntoConfig(
 	theConfig *builtinconfig.TransformerConfig, theGvk resid.Gvk, theMap nameToApiMap,
-	typeName string, path []string) (err error) {
+	typeName string, path []string, open map[string]bool) (err error) {
 	api, ok := theMap[typeName]
-	if !ok {
+	if !ok || open[typeName] {
 		return nil
 	}
+	open[typeName] = true
+	defer delete(open, typeName)
 	for propName, property := range api.Schema.SchemaProps.Properties {
 		_, annotate := property.Extensions.GetString(xAnnotation)
 		if annotate {
@@ -183,7 +188,7 @@ func loadCrdIntoConfig(
 		if property.Ref.GetURL() != nil {
 			err = loadCrdIntoConfig(
 				theConfig, theGvk, theMap,
-				property.Ref.String(), append(path, propName))
+				property.Ref.String(), append(path, propName), open)
 			if err != nil {
 				return
 			}
